@@ -39,6 +39,7 @@ type Op struct {
 	Chunks     []simrt.ReadStep `json:"chunks,omitempty"`
 	Rest       int              `json:"rest,omitempty"`
 	OpenErr    string           `json:"open_err,omitempty"`
+	SrcBack    int              `json:"src_back,omitempty"` // reader path: take the bytes written by the op this many steps back
 
 	// parse
 	Argv      []BStr             `json:"argv,omitempty"`
@@ -74,6 +75,7 @@ type Scenario struct {
 	Aux    map[string]string `json:"aux,omitempty"`    // property-specific expectations recorded by the generator
 	Note   string            `json:"note,omitempty"`
 	C14    *C14Payload       `json:"c14,omitempty"`
+	C12    *C12Payload       `json:"c12,omitempty"`
 }
 
 // ---- outcome ---------------------------------------------------------------
@@ -271,6 +273,7 @@ func Execute(sc *Scenario, sched *simrt.Schedule) (out *Outcome) {
 			dead = false
 			ctx.counts = map[string]int{}
 			w.Exited = false
+			w.Ticks, w.TickBudget = 0, 1<<40
 			b = Build(sc.Decl)
 			if b.Err != nil {
 				out.DeclErr = b.Err.Error()
@@ -288,6 +291,11 @@ func Execute(sc *Scenario, sched *simrt.Schedule) (out *Outcome) {
 		w.Fd1.Data, w.Fd2.Data = nil, nil
 		w.Ticks = 0
 		w.TickBudget = opBudget(op)
+		if op.Kind == "iniread" && op.SrcBack > 0 && len(out.Ops) >= op.SrcBack {
+			cp := *op
+			cp.Data = out.Ops[len(out.Ops)-op.SrcBack].Out
+			op = &cp
+		}
 		runOp(w, b, op, &res)
 		res.Ticks = w.Ticks
 		res.Fd1, res.Fd2 = BStr(w.Fd1.Data), BStr(w.Fd2.Data)
